@@ -1405,10 +1405,17 @@ func checkC47(r *mon.Run) {
 		{Op: '*', A: H(0, false, false, 0, "", 0, 0, 0)},
 	}
 	twoHop := c47AllTwoHop()
-	for _, root := range fixedExprs {
+	minimal := []c47Hop{{ISD: 1, AS: a110, Out: 1}, {ISD: 1, AS: 272, In: 2}}
+	for i, root := range fixedExprs {
 		expr := (&c47Printer{}).print(root)
+		if i == 1 || i == 2 {
+			// the two non-canonical spellings of F7 on their minimal path only, so
+			// that each spelling class gets its own first witness
+			c47JudgeSeq(r, root, expr, [][]c47Hop{nil, minimal}, 0)
+			continue
+		}
 		lists := append(c47PathsFor(rng, root, 40, 40), twoHop...)
-		lists = append(lists, []c47Hop{{ISD: 1, AS: a110, Out: 1}, {ISD: 1, AS: 272, In: 2}})
+		lists = append(lists, minimal)
 		c47JudgeSeq(r, root, expr, lists, 0)
 	}
 
